@@ -2,7 +2,7 @@
    Theorems only, about the topic model Sys/Topic.v (one group topic; the self/search
    and system topics are outside this model, see DESIGN.md section 7). *)
 From Coq Require Import ZArith NArith List Bool.
-From Tinode Require Import Base.Util Pure.Acs Sys.Topic Sys.TopicTac Sys.TopicFrame Sys.TopicNum Sys.TopicOut Sys.TopicNumThm Sys.TopicPub.
+From Tinode Require Import Base.Util Pure.Acs Sys.Topic Sys.TopicTac Sys.TopicFrame Sys.TopicNum Sys.TopicOut Sys.TopicNumThm Sys.TopicPub Sys.TopicMarks Sys.TopicMeta Sys.TopicCoh Sys.TopicLife Sys.TopicLifeProofs.
 Import ListNotations.
 Open Scope Z_scope.
 
@@ -40,12 +40,206 @@ Theorem c03_accepted_effect : forall s c n sid u content noecho,
     fanout_data (h_ca (publish NoFault s c n sid u content noecho)) (if noecho then sid else 0%N) (Data (c_lastid c + 1) u content)
     ++ push_out (h_ca (publish NoFault s c n sid u content noecho)) (c_lastid c + 1) u.
 Proof. exact publish_nofault. Qed.
+
+(* ---- the decision is taken on the cache; the authoritative grant is the stored row ---- *)
+
+(* [cohx x]: while the topic is loaded, every user's cached (want, given) is the one of his live
+   stored subscription row, users without a live row have no cache entry, every attached session
+   belongs to a cached user; the store never has two rows for one user.
+   [safe_run]: the history contains neither of the two triggers that the faithful model reproduces
+   (see the refutations below): an {set sub} from a session that is NOT attached while the topic is
+   loaded, and an ownership-transfer acceptance (own want with O while given has O and want has not)
+   with a store fault planned, or on a topic without a cached owner other than the requester. *)
+
+(* Every fault plan: a Fail/Crash at any adapter call of any request keeps cache and store coherent. *)
+Theorem c03_cache_is_store_partial : forall s h, wf_store s ->
+  safe_run dr nr sm (mkState s None 0) h -> cohx (fst (run dr nr sm (mkState s None 0) h)).
+Proof. intros s h W SR. apply run_cohx; [exact SR|exact W]. Qed.
+
+(* acknowledged iff attached and W in both the STORED want and the STORED given of the author *)
+Theorem c03_accepted_iff_stored : forall x sid content noecho, inv_num x -> cohx x ->
+  ((exists n, first_reply (snd (step dr nr sm NoFault x (OPub sid content noecho))) sid = Some (Ctrl 202 [(P_seq, n)]))
+   <-> accepts_stored sm x sid = true).
+Proof.
+  intros x sid content noecho I C. rewrite <- (accepts_stored_eq sm x sid C). exact (accept_iff dr nr sm x sid content noecho I).
+Qed.
+
+(* lifted to histories: after any history with any faults (triggers excluded) *)
+Theorem c03_accepted_iff_stored_history : forall s h sid content noecho, fresh s -> wf_store s ->
+  safe_run dr nr sm (mkState s None 0) h ->
+  let x := fst (run dr nr sm (mkState s None 0) h) in
+  ((exists n, first_reply (snd (step dr nr sm NoFault x (OPub sid content noecho))) sid = Some (Ctrl 202 [(P_seq, n)]))
+   <-> accepts_stored sm x sid = true).
+Proof.
+  intros s h sid content noecho F W SR x. apply c03_accepted_iff_stored.
+  - apply run_inv_num. apply fresh_inv. exact F.
+  - apply run_cohx; [exact SR|exact W].
+Qed.
+
+(* a permission request that leaves the stored grants as they were (refused, or its store call
+   failed) leaves every publish decision as it was *)
+Theorem c03_failed_change_keeps_decision : forall x fo, cohx x -> safe_step sm x fo = true ->
+  (forall u, smodes (st (fst (step_f dr nr sm x fo))) u = smodes (st x) u) ->
+  match ca x, ca (fst (step_f dr nr sm x fo)) with
+  | Some c, Some c' => forall u, is_writer (pud_mode (get_pud c' u)) = is_writer (pud_mode (get_pud c u))
+  | _, _ => True
+  end.
+Proof. exact (grant_kept_decision_kept dr nr sm). Qed.
+
+(* ---- topic states and topic kinds (model Sys/TopicLife.v around the group-topic model) ---- *)
+
+(* [xaccepts sm x sid]: no delete of the topic is in flight (the hub is not inside store.Topics.Delete
+   for it), the topic is not read-only (suspended), the session is attached and the author's
+   subscription has W in want and given. *)
+Theorem c03x_accepted_iff : forall x sid content noecho, inv_num (xb x) ->
+  ((exists n, first_reply (snd (xstep dr nr sm x (EBase NoFault (OPub sid content noecho)))) sid = Some (Ctrl 202 [(P_seq, n)]))
+   <-> xaccepts sm x sid = true).
+Proof. exact (xaccept_iff dr nr sm). Qed.
+
+(* every history of requests, deletions in two halves, suspensions, faults and crashes reaches a state
+   satisfying the invariants the theorems need *)
+Theorem c03x_reachable : forall s h, fresh s -> xinv (fst (xrun dr nr sm (xinit s) h)).
+Proof. intros s h F. apply xinv_xrun. apply xinv_init. exact F. Qed.
+
+Theorem c03x_accepted_iff_history : forall s h sid content noecho, fresh s ->
+  let x := fst (xrun dr nr sm (xinit s) h) in
+  ((exists n, first_reply (snd (xstep dr nr sm x (EBase NoFault (OPub sid content noecho)))) sid = Some (Ctrl 202 [(P_seq, n)]))
+   <-> xaccepts sm x sid = true).
+Proof. intros s h sid content noecho F x. apply c03x_accepted_iff. apply (c03x_reachable s h F). Qed.
+
+(* rejected, for any fault plan: exactly one error reply to the sender, the stores (topic rows, accounts,
+   sys) are what they were; unless the plan is a crash, so is everything in memory *)
+Theorem c03x_rejected_no_effect : forall x f sid content noecho, xwf x -> xaccepts sm x sid = false ->
+  exists code, 400 <= code /\
+    snd (xstep dr nr sm x (EBase f (OPub sid content noecho))) = [(sid, Ctrl code [])] /\
+    stores_same x (fst (xstep dr nr sm x (EBase f (OPub sid content noecho)))) /\
+    (is_crash f = false ->
+     fst (xstep dr nr sm x (EBase f (OPub sid content noecho))) = set_b (mkState (st (xb x)) (ca (xb x)) 0) x).
+Proof. exact (xreject_no_effect dr nr sm). Qed.
+
+(* while the hub is inside the store call of the owner's {del topic}: refused, whoever the author is *)
+Theorem c03x_being_deleted_refuses : forall x f sid content noecho, x_del x <> None ->
+  xstep dr nr sm x (EBase f (OPub sid content noecho)) =
+    (set_b (mkState (st (xb x)) (ca (xb x)) 0) x, [(sid, Ctrl (if x_attached x sid then 503 else 409) [])]).
+Proof. intros x f sid content noecho D. unfold xstep. destruct (x_del x); [reflexivity|congruence]. Qed.
+
+(* me / fnd: refused whether the session is attached or not; nothing changes because of the publish
+   (the only other thing that can complete on the way is a delete that was already in flight) *)
+Theorem c03x_self_topic_refuses : forall x sid content, exists code, 400 <= code /\
+  xstep dr nr sm x (EPubMe sid content) = (fst (del_finish x), snd (del_finish x) ++ [(sid, Ctrl code [])]).
+Proof. exact (xstep_pub_me dr nr sm). Qed.
+Theorem c03x_search_topic_refuses : forall x sid content, exists code, 400 <= code /\
+  xstep dr nr sm x (EPubFnd sid content) = (fst (del_finish x), snd (del_finish x) ++ [(sid, Ctrl code [])]).
+Proof. exact (xstep_pub_fnd dr nr sm). Qed.
+
+(* sys: any logged-in author, no attachment; the message gets the next number and is stored *)
+Theorem c03x_sys_accepts_without_attachment : forall x sid content, sess_uid sm sid <> 0%N -> sys_inv x ->
+  publish_sys sm x NoFault sid content =
+    (set_sys (x_sys_lastid x + 1) (x_sys_lastid x + 1)
+             (x_sys_msgs x ++ [mkMsg (x_sys_lastid x + 1) (sess_uid sm sid) content 0]) x,
+     [(sid, Ctrl 202 [(P_seq, x_sys_lastid x + 1)])]).
+Proof. exact (publish_sys_accepts sm). Qed.
+Theorem c03x_sys_failed_stores_nothing : forall x f sid content,
+  (exists n, snd (publish_sys sm x f sid content) = [(sid, Ctrl 202 [(P_seq, n)])]) \/
+  ((snd (publish_sys sm x f sid content) = [(sid, Ctrl 500 [])] \/ snd (publish_sys sm x f sid content) = []) /\
+   x_sys_msgs (fst (publish_sys sm x f sid content)) = x_sys_msgs x /\
+   st (xb (fst (publish_sys sm x f sid content))) = st (xb x) /\
+   (is_crash f = false -> x_sys_lastid (fst (publish_sys sm x f sid content)) = x_sys_lastid x /\
+                          xb (fst (publish_sys sm x f sid content)) = xb x)).
+Proof. exact (publish_sys_cases sm). Qed.
+
+(* suspension: the loaded topic of the suspended owner becomes read-only (and writable again on resume) *)
+Theorem c03x_suspension_marks_loaded_topic_partial : forall x u b c a,
+  ca (xb x) = Some c -> c_owner c = u -> alookup u (users (st (xb x))) = Some a -> memN u (x_susp x) = negb b ->
+  x_ro (suspend x NoFault u b) = b.
+Proof. exact suspend_marks. Qed.
+
+(* both halves together: after ANY history of the wrapper model - requests with Fail/Crash at any adapter call,
+   deletions in two halves, suspensions, publishes to me/fnd/sys - that avoids the two named triggers, a publish
+   is acknowledged iff no delete is in flight, the topic is not read-only, the session is attached and the
+   author's STORED want and STORED given both have W *)
+Theorem c03x_accepted_iff_stored_history : forall s h sid content noecho, fresh s -> wf_store s ->
+  xsafe_run dr nr sm (xinit s) h ->
+  let x := fst (xrun dr nr sm (xinit s) h) in
+  ((exists n, first_reply (snd (xstep dr nr sm x (EBase NoFault (OPub sid content noecho)))) sid = Some (Ctrl 202 [(P_seq, n)]))
+   <-> xaccepts_stored sm x sid = true).
+Proof.
+  intros s h sid content noecho F W SR x.
+  rewrite <- (xaccepts_stored_eq sm x sid (cohx_xrun dr nr sm h (xinit s) SR W)).
+  apply c03x_accepted_iff_history. exact F.
+Qed.
 End C03.
 
 Print Assumptions c03_accepted_iff.
 Print Assumptions c03_reachable.
 Print Assumptions c03_rejected_no_effect.
 Print Assumptions c03_accepted_effect.
+Print Assumptions c03_cache_is_store_partial.
+Print Assumptions c03_accepted_iff_stored.
+Print Assumptions c03_accepted_iff_stored_history.
+Print Assumptions c03_failed_change_keeps_decision.
+Print Assumptions c03x_accepted_iff.
+Print Assumptions c03x_reachable.
+Print Assumptions c03x_accepted_iff_history.
+Print Assumptions c03x_rejected_no_effect.
+Print Assumptions c03x_being_deleted_refuses.
+Print Assumptions c03x_self_topic_refuses.
+Print Assumptions c03x_search_topic_refuses.
+Print Assumptions c03x_sys_accepts_without_attachment.
+Print Assumptions c03x_sys_failed_stores_nothing.
+Print Assumptions c03x_suspension_marks_loaded_topic_partial.
+Print Assumptions c03x_accepted_iff_stored_history.
+
+(* The full statement - the decision follows the STORED grant after EVERY history - is refuted by the
+   faithful model (and replayed on the real code, findings/C03.md): *)
+Definition c03_stored_iff_statement : Prop :=
+  forall (sm : sessmap) s h sid content noecho, fresh s -> wf_store s ->
+  let x := fst (run (fun _ _ => None) (fun r => r) sm (mkState s None 0) h) in
+  ((exists n, first_reply (snd (step (fun _ _ => None) (fun r => r) sm NoFault x (OPub sid content noecho))) sid
+              = Some (Ctrl 202 [(P_seq, n)]))
+   <-> accepts_stored sm x sid = true).
+
+Definition c03_w_store : store :=
+  ad_sub_create (ad_sub_create (mkStore true 0 0 0 47 0 [] [] [] [(1%N, 47%N); (2%N, 47%N)]) 1%N 255%N 255%N) 2%N 47%N 47%N.
+Definition c03_w_sm : sessmap := [(1%N, 1%N); (2%N, 2%N); (3%N, 2%N)].
+(* trigger 1: user 2 is attached with session 2 and drops W from his want with session 3, which is not
+   attached (replyOfflineTopicSetSub writes the store, the loaded topic keeps the old want) *)
+Definition c03_w_hist1 : list (fault * op) :=
+  [(NoFault, OSub 2 [] false); (NoFault, OSetSub 3 0 [74%N; 82%N; 80%N])].
+(* trigger 2: user 2 holds a pending ownership transfer (O in given) and accepts it with a want without W;
+   the second store call of the transfer fails: want is already stored, the cache keeps the old one *)
+Definition c03_w_store2 : store :=
+  ad_sub_create (ad_sub_create (mkStore true 0 0 0 47 0 [] [] [] [(1%N, 47%N); (2%N, 47%N)]) 1%N 255%N 255%N) 2%N 47%N 255%N.
+Definition c03_w_hist2 : list (fault * op) :=
+  [(NoFault, OSub 2 [] false); (FailAt 2, OSetSub 2 0 [74%N; 82%N; 80%N; 83%N; 79%N])].
+
+Example c03_w_fresh1 : fresh c03_w_store /\ wf_store c03_w_store.
+Proof. split; [split; reflexivity|]. unfold wf_store. vm_compute. repeat constructor; cbn; intuition discriminate. Qed.
+Example c03_w_fresh2 : fresh c03_w_store2 /\ wf_store c03_w_store2.
+Proof. split; [split; reflexivity|]. unfold wf_store. vm_compute. repeat constructor; cbn; intuition discriminate. Qed.
+
+Theorem c03_stored_iff_refuted : ~ c03_stored_iff_statement.
+Proof.
+  intros H. destruct c03_w_fresh1 as [F W].
+  specialize (H c03_w_sm c03_w_store c03_w_hist1 2%N 7%N false F W). cbv zeta in H.
+  destruct H as [H _].
+  assert (A : accepts_stored c03_w_sm (fst (run (fun _ _ => None) (fun r => r) c03_w_sm (mkState c03_w_store None 0) c03_w_hist1)) 2 = false)
+    by (vm_compute; reflexivity).
+  rewrite A in H. assert (X : false = true); [apply H|discriminate X].
+  exists 1. vm_compute. reflexivity.
+Qed.
+Theorem c03_stored_iff_refuted_by_transfer_fault : ~ c03_stored_iff_statement.
+Proof.
+  intros H. destruct c03_w_fresh2 as [F W].
+  specialize (H c03_w_sm c03_w_store2 c03_w_hist2 2%N 7%N false F W). cbv zeta in H.
+  destruct H as [H _].
+  assert (A : accepts_stored c03_w_sm (fst (run (fun _ _ => None) (fun r => r) c03_w_sm (mkState c03_w_store2 None 0) c03_w_hist2)) 2 = false)
+    by (vm_compute; reflexivity).
+  rewrite A in H. assert (X : false = true); [apply H|discriminate X].
+  exists 1. vm_compute. reflexivity.
+Qed.
+Print Assumptions c03_stored_iff_refuted.
+Print Assumptions c03_stored_iff_refuted_by_transfer_fault.
 
 Example c03_ex_hypotheses_satisfiable :
   let s0 := ad_sub_create (ad_sub_create (mkStore true 0 0 0 47 0 [] [] [] [(1%N, 47%N); (2%N, 47%N)]) 1%N 255%N 255%N) 2%N 3%N 47%N in
@@ -53,3 +247,21 @@ Example c03_ex_hypotheses_satisfiable :
   let x := fst (run (fun _ _ => None) (fun x => x) sm (mkState s0 None 0) [(NoFault, OSub 1 [] false); (NoFault, OSub 2 [] false)]) in
   accepts sm x 1 = true /\ accepts sm x 2 = false /\ accepts sm x 3 = false.
 Proof. vm_compute. repeat split. Qed.
+
+(* "The topic of a suspended owner is read-only" as a statement about every reachable state is refuted: the
+   read-only bit is a flag of the loaded Topic only, set by hub.topicsStateForUser when the {acc} arrives;
+   a topic loaded afterwards (first load, idle unload, restart) does not have it (findings/C03.md #3). *)
+Definition c03_suspension_survives_reload_statement : Prop :=
+  forall (sm : sessmap) s h, fresh s ->
+  let x := fst (xrun (fun _ _ => None) (fun r => r) sm (xinit s) h) in
+  match ca (xb x) with
+  | Some c => memN (c_owner c) (x_susp x) = true -> x_ro x = true
+  | None => True
+  end.
+Theorem c03_suspension_survives_reload_refuted : ~ c03_suspension_survives_reload_statement.
+Proof.
+  intros H. destruct c03_w_fresh1 as [F _].
+  specialize (H c03_w_sm c03_w_store [ESuspend NoFault 1%N true; EBase NoFault (OSub 2 [] false)] F).
+  vm_compute in H. specialize (H eq_refl). discriminate H.
+Qed.
+Print Assumptions c03_suspension_survives_reload_refuted.
